@@ -429,6 +429,7 @@ def run_search(job: dict) -> dict:
         module_name=job["module"],
     )
     config.configuration.stopping.maximum_iterations = job["iterations"]
+    config.configuration.stopping.maximum_memory = -1  # the (forked) harness process is big
     config.configuration.search_algorithm.population = job["population"]
     config.configuration.seeding.seed = job["seed"]
     for k, v in job.get("search", {}).items():
